@@ -251,6 +251,31 @@ def leaf_objects():
     L["TrafficLight"] = (lambda: spec.mk_light({"id": 11, "position": [19.0, 4.5], "cycle": [("RED", 2)]}), lambda t: {k: v for k, v in snap.light(t).items() if k != "color"}, inplace)
     L["GoalRegion"] = (lambda: spec.mk_goal({"states": [spec.goal_state(position=["rect", 4.0, 2.0, 15.0, 1.5, 0.5], orientation=["aiv", -0.5, 0.5]),
                                                         spec.goal_state(position=["circle", 2.0, 18.0, 1.0], orientation=["aiv", 4.0, 6.0])], "lanelets": None}), snap.goal, inplace)
+    # goal states that constrain an orientation (or only a velocity) without a position
+    L["GoalRegion-no-position"] = (lambda: spec.mk_goal({"states": [spec.goal_state(orientation=["aiv", -0.5, 0.5]), spec.goal_state(velocity=["iv", 0.0, 5.0]),
+                                                                    spec.goal_state(position=["circle", 2.0, 18.0, 1.0], orientation=["aiv", 4.0, 6.0]),
+                                                                    spec.goal_state(orientation=["aiv", -6.0, -5.5], velocity=["iv", 1.0, 2.0])], "lanelets": None}), snap.goal, inplace)
+    # the same kinds of objects with INTEGER-typed coordinate arrays (np.array([5, 4])): a stored point is a point whatever its dtype
+    from commonroad.geometry.shape import Rectangle, Circle, Polygon
+    from commonroad.scenario.traffic_sign import TrafficSign, TrafficSignElement, TrafficSignIDGermany
+    from commonroad.scenario.traffic_light import TrafficLight, TrafficLightCycle, TrafficLightCycleElement, TrafficLightState
+    from commonroad.scenario.lanelet import Lanelet
+    from commonroad.scenario.state import KSState, CustomState
+    from commonroad.scenario.obstacle import EnvironmentObstacle, ObstacleType
+    from commonroad.prediction.prediction import Occupancy
+    ia = lambda *v: np.array(v, dtype=int)
+    L["int:Rectangle"] = (lambda: Rectangle(4.0, 2.0, ia(1, -2), 0.7), snap.shape, ret)
+    L["int:Circle"] = (lambda: Circle(1.5, ia(-3, 2)), snap.shape, ret)
+    L["int:Polygon"] = (lambda: Polygon(np.array([[0, 0], [4, 0], [5, 3], [1, 2]], dtype=int)), snap.shape, ret)
+    L["int:KSState"] = (lambda: KSState(time_step=1, position=ia(3, -1), orientation=0.3, velocity=2.0, steering_angle=0.0), snap.state, ret)
+    L["int:State-circle-region"] = (lambda: CustomState(time_step=2, position=Circle(1.0, ia(2, 2)), orientation=1.0), snap.state, ret)
+    L["int:Occupancy"] = (lambda: Occupancy(1, Rectangle(3.0, 2.0, ia(7, 1), 0.3)), snap.occupancy, inplace)
+    L["int:StopLine"] = (lambda: StopLine(ia(1, 2), ia(1, 5), LineMarking.SOLID, set(), set()), snap.stop_line, inplace)
+    L["int:Lanelet"] = (lambda: Lanelet(np.array([[0, 4], [10, 4], [20, 6]], dtype=int), np.array([[0, 2], [10, 2], [20, 4]], dtype=int), np.array([[0, 0], [10, 0], [20, 2]], dtype=int), 7), snap.lanelet, inplace)
+    L["int:TrafficSign"] = (lambda: TrafficSign(10, [TrafficSignElement(TrafficSignIDGermany.STOP, [])], {1}, ia(5, 4)), snap.sign, inplace)
+    L["int:TrafficLight"] = (lambda: TrafficLight(11, ia(19, 4), TrafficLightCycle([TrafficLightCycleElement(TrafficLightState.RED, 2)])),
+                             lambda t: {k: v for k, v in snap.light(t).items() if k != "color"}, inplace)
+    L["int:EnvironmentObstacle"] = (lambda: EnvironmentObstacle(60, ObstacleType.BUILDING, Rectangle(4.0, 2.0, ia(6, -3), 0.25)), snap.obstacle, inplace)
     return L
 
 
